@@ -124,6 +124,21 @@ def storeChar (s : St) (p : CPtr) (i c : Nat) : Option St :=
 /-- `p[i]` as a value that is branched on -/
 def loadChar (s : St) (p : CPtr) (i : Nat) : Option Nat := rdVal s p.base (p.off + i)
 
+/-- `vsnprintf(p, size, format, ap)` where `out` is the text the format and its arguments produce (assumption: C standard
+    behaviour of the libc formatter): at most `size - 1` chars and a NUL are stored at `p` — nothing when `size` is 0 —; the
+    value of the call is `out.length` (the translator writes that down separately) -/
+def vsnprintf (s : St) (p : CPtr) (size : Nat) (out : List Nat) : Option St :=
+  match p.base with
+  | .blk b =>
+    match s.heap b with
+    | some blk =>
+      if size = 0 then some s
+      else do
+        let m ← wr blk.bytes p.off ((out.take (size - 1)).map some ++ [some 0])
+        some { s with heap := upd s.heap b (some { blk with bytes := m }) }
+    | none => none
+  | _ => none
+
 /-- `p + n` -/
 def padd (p : CPtr) (n : Nat) : CPtr := ⟨p.base, p.off + n⟩
 
